@@ -36,8 +36,8 @@ def run(ctx, config='rel-all'):
             for f in e.extra['added']:
                 if f[0] == 'eq' and len(f) == 3 and any(x[0] == 'addr' and prover.root_static(x[1]) == 'EMPTY_CHUNK' for x in f[1:] if isinstance(x, tuple)):
                     other = [x for x in f[1:] if not (x[0] == 'addr' and prover.root_static(x[1]) == 'EMPTY_CHUNK')]
-                    if other and other[0][0] == 'addr' and other[0][1][0] == 'deref':
-                        Fc = other[0][1][1]
+                    if other:
+                        Fc = other[0][1][1] if (other[0][0] == 'addr' and other[0][1][0] == 'deref') else other[0]
                         if Fc[0] == 'load' and Fc[1][0] == 'fld' and Fc[1][2].endswith('.current_chunk_footer'):
                             early_edges.append((e.block, e.extra['target']))
                             F = Fc
